@@ -125,6 +125,22 @@ CLAIMED["C04"] = dict(
     technique="deterministic simulation: conservation invariants checked per step over seeded schedules and inputs",
     engine="E-RHD", design_ref="6/C04")
 
+CLAIMED["C09"] = dict(
+    level="exploration",
+    text="Restart experiments on whole pure-hydro RHD runs with one simulated thread: uninterrupted run A (dump and "
+         "state digest after every step); chains of 1-3 stops at seeded steps by four real mechanisms "
+         "(--number-of-steps, stop file, simulated wall clock beyond 'maximum time', SIGINT), each followed by "
+         "--restart from the dump left behind. Every step after a restart must be bitwise identical to A (digest "
+         "over all hydro/ionization variables, step sizes, time, has-next), every later dump byte-identical to A's "
+         "outside the timer block and the re-seeded random seed field; a dump per run is read through the same "
+         "restart constructors the driver uses and written again (identical bytes).",
+    note="components reachable from the task-based RHD dump with the options generated (timers, parameter file, "
+         "grid creator, hydro subgrids, cell variables, SingleStar source distribution, live output counter, time "
+         "line); mask, turbulence forcing and the other source distributions are not generated yet and are named "
+         "here as not covered",
+    technique="deterministic simulation: stop/restart fault injection (simulated clock, signal, stop file) with bitwise history comparison",
+    engine="E-RHD", design_ref="6/C09")
+
 PENDING = {}
 
 
@@ -183,7 +199,7 @@ def main():
              "kind_free_text": "TimeLine driven by request histories with save/restore faults"},
             {"name": "E-FS", "path": "engines/efs.cpp", "serves_properties": ["C14"],
              "kind_free_text": "restart dump rotation in forked children with process death at numbered file-system operations"},
-            {"name": "E-RHD", "path": "engines/erhd.cpp", "serves_properties": ["C04", "C07", "C10"],
+            {"name": "E-RHD", "path": "engines/erhd.cpp", "serves_properties": ["C04", "C07", "C09", "C10"],
              "kind_free_text": "whole TaskBasedRadiationHydrodynamicsSimulation::do_simulation runs inside the simulator"},
             {"name": "E-ION", "path": "engines/eion.cpp", "serves_properties": ["C01", "C03"],
              "kind_free_text": "whole TaskBasedIonizationSimulation runs from generated parameter files inside the simulator"},
